@@ -20,7 +20,8 @@ RULE = ("Enumerated completely: axis length L = 1..7 (quick) / 1..12 (thorough),
         "bfill} on irregular axes, longer axes (L <= 40). Oracle: window-list model - windows (k-n+1..k) for k = index(begin) .. "
         "max(index(end), n-1) descending; every yielded item must carry nansum / nanmean / the untouched slice of exactly that window, "
         "be stamped with axis[k] (time dim) and carry agg_start, agg_stop, agg_n; a label that cannot be located raises ValueError. "
-        "Non-trivial: begin or end given, or n not in {1,3}, or L != 5; distinct by configuration.")
+        "Non-trivial: begin or end given, or n not in {1,3}, or L != 5; distinct by configuration. "
+        " Added after the fourth seeded round: Cube also as the variables of a Dataset; sub-check 'history': axis relabelled / cells overwritten in place between calls, compared with a brand-new object.")
 ASSUME = ["label lookup model: ffill = last label <= target, bfill = first label >= target, nearest (equidistant targets avoided)"]
 EXHAUSTIVE_WHOLE = False
 
